@@ -15,6 +15,7 @@ from .kernel import HarnessError
 CURRENT = None          # the Kernel of the active run
 _installed = False
 _saved = {}
+_ORIG = {}
 
 
 def kernel():
@@ -170,6 +171,8 @@ def install():
     socketserver.threading = _ThreadingShim()
     # socketserver's selector use is never reached: the harness calls
     # process_request() itself instead of serve_forever().
+    from pymodbus.interfaces import IModbusSlaveContext
+    _ORIG['fx_mapper'] = dict(IModbusSlaveContext._IModbusSlaveContext__fx_mapper)
     _installed = True
 
 
@@ -213,9 +216,9 @@ def reset_globals():
             del data[key]
         else:
             data[key] = ''
-    IModbusSlaveContext._IModbusSlaveContext__fx_mapper = {2: 'd', 4: 'i'}
-    IModbusSlaveContext._IModbusSlaveContext__fx_mapper.update([(i, 'h') for i in [3, 6, 16, 22, 23]])
-    IModbusSlaveContext._IModbusSlaveContext__fx_mapper.update([(i, 'c') for i in [1, 5, 15]])
+    # restore the mapping the tree under test ships (captured at install time), not a constant:
+    # a change to that table must stay visible to the checks
+    IModbusSlaveContext._IModbusSlaveContext__fx_mapper = dict(_ORIG['fx_mapper'])
     try:
         from pymodbus.client.asynchronous.twisted import ModbusTcpClientProtocol
         fr = ModbusTcpClientProtocol.framer
